@@ -221,7 +221,8 @@ Section Guard.
     | SAug v op e =>
         negb (is_matmult op) && tmem v (d_decl (st_ctx st)) && assign_ok L G v (EBin op (EName v) e)
     | SAssignR v r => assignr_ok L G v r
-    | STuple _ _ => false         (* tuple assignment: in the model and the correspondence, outside this theorem *)
+    | STuple xs es =>
+        Nat.eqb (length xs) (length es) && forallb (fun xe => assign_ok L G (fst xe) (snd xe)) (combine xs es)
     | SReturn None => true
     | SReturn (Some e) => ret_ok L G e
     | SIf brs els =>
